@@ -40,7 +40,7 @@ MANIFEST = dict(
          "model, plus token soup through scanner, reader, evaluator, sliced evaluator and highlighter.",
     design="DESIGN.md section 5 C06 and section 10",
     note="PARTIAL at the proof level (see text). Listed findings, each by call site: ratio32-overflow-panic, cyclic-data, "
-         "make-vector-huge, make-string-huge, expt-astronomic. A hang is observed as a timeout (implementation) / exhausted fuel (model). "
+         "make-vector-huge, make-string-huge, expt-astronomic, eval-object-in-constant. A hang is observed as a timeout (implementation) / exhausted fuel (model). "
          "Trusted: Coq kernel, models tied by sampling, harness catch_unwind + timeouts, generator. Axioms: the four "
          "standard-library Reals axioms via Flocq where a statement mentions numbers.",
     technique="Rocq/Coq proof (reader totality for all texts, generated builtin-coverage obligation) + builtin-call correspondence check")
@@ -66,6 +66,8 @@ PALETTE = [
     "(vector)", "(vector 1)", "(vector 1 2 3)",
     "'sym", "'+", "#t", "#f",
     "car", "(lambda (x) x)", "(lambda r r)", "(call/cc (lambda (k) k))", "and", "(if #f #f)",
+    # data that CONTAIN a procedure / continuation / macro object (as eval, apply, display ... may receive them)
+    "(list 'quote car)", "(vector 1 car)", "(list 'quote (call/cc (lambda (k) k)))", "(list 'quasiquote (list 1 car))",
 ]
 NUMERIC = set(range(0, 23))
 CYCLIC = ["(let ((c (list 1 2))) (set-cdr! (cdr c) c) c)", "(let ((v (vector 1 2))) (vector-set! v 0 v) v)"]
@@ -108,6 +110,7 @@ def corpus():
     out.append(sess(["(display %s)" % CYCLIC[0], PROBE]))
     out.append(sess(["(make-vector 9223372036854775808 0)", PROBE]))
     out.append(sess(["(expt 2 2147483647)", PROBE]))
+    out.append(sess(["(eval (list 'quote car))", PROBE]))
     out.append(sess(["(make-string 9223372036854775807)", PROBE]))
     # the reader panic repaired by fix e424813
     for t in ["#d1/-2147483648", "#d-2147483648/-1", "#x-80000000/-1", "(string->number \"1/-2147483648\")"]:
@@ -263,6 +266,9 @@ def classify_call(f):
         if f in CYCLIC or head in ("length", "equal?", "display", "write"):
             return "cyclic-data"
         return None
+    if head == "eval" and any(x in rest for x in ("(list 'quote car)", "(vector 1 car)", "(list 'quote (call/cc (lambda (k) k)))",
+                                                  "(list 'quasiquote (list 1 car))", "(list 'quote and)")):
+        return "eval-object-in-constant"
     if head == "make-vector" and rest.rstrip(")").split(" ")[0] in HUGE:
         return "make-vector-huge"
     if head == "make-string" and rest.rstrip(")").split(" ")[0] in HUGE:
